@@ -59,20 +59,25 @@ LastCopyIdx(toks) == LET I == {i \in 1..Len(toks) : ~IsLit(toks[i])} IN
                      IF I = {} THEN 0 ELSE CHOOSE i \in I : \A j \in I : j <= i
 MaxOff(t) == IF t.k = "c1" THEN 2047 ELSE IF t.k = "c2" THEN 65535 ELSE 2147483647
 
+\* the elements of `toks` up to some element boundary produce exactly `declared` bytes: the
+\* block is a complete valid block followed by further input
+TrailAt(toks, declared) == \E k \in 0..Len(toks) : OutLen(SubSeq(toks, 1, k)) = declared
+
 BadBlocks(toks) ==
     LET n  == OutLen(toks)
         S  == SerR(toks)
         lc == LastCopyIdx(toks)
         before == IF lc = 0 THEN 0 ELSE OutLen(SubSeq(toks, 1, lc - 1))
-    IN   {[why |-> "truncated", s |-> RTake(S, k), cap |-> n] : k \in Cuts(toks)}
-    \cup {[why |-> "declared-length-too-large", s |-> SerBlockR(n + 1, toks), cap |-> n + 1]}
-    \cup (IF n > 0 THEN {[why |-> "declared-length-too-small", s |-> SerBlockR(n - 1, toks), cap |-> n],
-                         [why |-> "capacity-too-small", s |-> S, cap |-> n - 1]} ELSE {})
-    \cup {[why |-> "trailing-element", s |-> SerBlockR(n, Append(toks, Lit(0, B(<<65>>)))), cap |-> n + 1]}
+        bad(why, s, cap, trail) == [why |-> why, s |-> s, cap |-> cap, trail |-> trail]
+    IN   {bad("truncated", RTake(S, k), n, FALSE) : k \in Cuts(toks)}
+    \cup {bad("declared-length-too-large", SerBlockR(n + 1, toks), n + 1, FALSE)}
+    \cup (IF n > 0 THEN {bad("declared-length-too-small", SerBlockR(n - 1, toks), n, TrailAt(toks, n - 1)),
+                         bad("capacity-too-small", S, n - 1, FALSE)} ELSE {})
+    \cup {bad("trailing-element", SerBlockR(n, Append(toks, Lit(0, B(<<65>>)))), n + 1, TRUE)}
     \cup (IF lc = 0 THEN {} ELSE
-            {[why |-> "offset-zero", s |-> SerBlockR(n, [toks EXCEPT ![lc].off = 0]), cap |-> n]}
+            {bad("offset-zero", SerBlockR(n, [toks EXCEPT ![lc].off = 0]), n, FALSE)}
        \cup (IF before + 1 <= MaxOff(toks[lc])
-             THEN {[why |-> "offset-beyond-output", s |-> SerBlockR(n, [toks EXCEPT ![lc].off = before + 1]), cap |-> n]}
+             THEN {bad("offset-beyond-output", SerBlockR(n, [toks EXCEPT ![lc].off = before + 1]), n, FALSE)}
              ELSE {}))
 
 (* ---- emission ------------------------------------------------------------------------ *)
